@@ -79,6 +79,7 @@ def _spell_validity(rng, kind, d: dt.date):
         return rng.choice([
             {'t': 'tuple_int', 'v': [d.year, d.month]},
             {'t': 'tuple_str', 'v': [f"{d.year:04d}", f"{d.month:02d}"]},
+            {'t': 'tuple_named', 'v': [d.year, d.month]},
             {'t': 'str', 'v': f"{d.year:04d}-{d.month:02d}"}])
     return rng.choice([{'t': 'date', 'v': d.isoformat()},
                        {'t': 'str', 'v': d.isoformat()}])
@@ -238,6 +239,7 @@ def gen(seed, run, tier='quick'):
             # called by money.convert / money + money without a date
             a, b = rng.sample(range(n_cur), 2)
             ops.append(['implicit', ci, a, b,
+                        '0' if rng.random() < 0.12 else
                         f"{rng.randrange(1, 10 ** 7)}/100",
                         rng.choice(['convert', 'add', 'lt'])])
         elif k in ('get', 'call'):
@@ -249,6 +251,7 @@ def gen(seed, run, tier='quick'):
                 ops.append(['get', ci, a, b, d])
             else:
                 ops.append(['call', ci, a, b, d,
+                            '0' if rng.random() < 0.12 else
                             f"{rng.randrange(1, 10 ** 7)}/100"])
         elif k == 'clock':
             ops.append(['clock', some_date().isoformat(),
@@ -311,7 +314,7 @@ class RefRates:
                 if 1 <= x <= 9999:
                     return 'year', (x,)
                 return None
-            if t in ('tuple_int', 'tuple_str'):
+            if t in ('tuple_int', 'tuple_str', 'tuple_named'):
                 y, m = int(x[0]), int(x[1])
                 if 1 <= y <= 9999 and 1 <= m <= 12:
                     return 'month', (y, m)
@@ -478,6 +481,10 @@ def execute(h):
             return x
         if t in ('tuple_int', 'tuple_str'):
             return tuple(x)
+        if t == 'tuple_named':
+            # a tuple is a tuple: (year, month) as named tuple
+            import collections
+            return collections.namedtuple('YearMonth', 'year month')(*x)
         if t == 'list':
             return list(x)
         if t == 'date':
